@@ -58,6 +58,10 @@ HELPERS_ALL = ["all", "any", "count", "count_unique", "first", "last", "nth", "m
                "mode", "mean", "median", "quantile", "std", "var", "sum"]
 HELPERS_DT = ["all", "any", "count", "count_unique", "first", "last", "nth", "min", "max", "mode"]
 DTYPES_QUICK = ["bool", "int64", "float64", "datetime64[D]", "datetime64[us]"]
+# narrower widths reach dataiter through Parquet/NPZ/pandas; the accelerated path widens them
+DTYPES_NARROW_QUICK = ["int32", "float32"]
+DTYPES_NARROW_THOROUGH = ["int32", "float32", "uint8", "int16", "float16"]
+NARROW = {"int8", "int16", "int32", "uint8", "uint16", "uint32", "float32", "float16"}
 KERNEL = {"all": "generic[all]", "any": "generic[any]", "count": "generic[len]",
           "count_unique": "count_unique_apply", "first": "nth_apply", "last": "nth_apply",
           "nth": "nth_apply", "min": "generic[amin]", "max": "generic[amax]", "mode": "mode_apply",
@@ -74,15 +78,17 @@ def gen_values(r, dtype, n, groups, na_mode):
     for i in range(n):
         if dtype == "bool":
             vals.append(r.random() < 0.5)
-        elif dtype in ("int64", "int32"):
+        elif dtype.startswith("uint"):
+            vals.append(r.choice([0, 1, 1, 2, 3, 5, 7, 7, 100]))
+        elif dtype.startswith("int"):
             vals.append(r.choice([0, 1, 1, 2, 3, 5, -4, 7, 7, 100]))
-        elif dtype in ("float64", "float32"):
+        elif dtype.startswith("float"):
             vals.append(r.choice([0.0, -0.0, 0.5, 1.5, 2.5, 2.5, -3.25, 1e6, 7.0, 7.0]))
         elif dtype == "datetime64[D]":
             vals.append(r.choice([0, 5, 5, 10, 12, 365, -400, 19000]))
         else:
             vals.append(r.choice([0, 3, 3, 5, 10**6, 10**12, -10**9, 86400 * 10**6]))
-    if dtype in ("bool", "int64", "int32"):
+    if dtype == "bool" or "int" in dtype:
         return vals
     if na_mode == "some":
         for i in range(n):
@@ -148,8 +154,11 @@ def gen_call(r, cfg, hid_counter, pool):
 
 def gen_world(rng, tier):
     r = rng
+    dtypes = r.sample(DTYPES_QUICK, r.choice([1, 2, 3, 5]))
+    if r.random() < 0.2:
+        dtypes.append(r.choice(DTYPES_NARROW_THOROUGH if tier == "thorough" else DTYPES_NARROW_QUICK))
     cfg = {
-        "dtypes": r.sample(DTYPES_QUICK, r.choice([1, 2, 3, 5])),
+        "dtypes": dtypes,
         "helpers_per_call": r.choice([[1], [1, 2], [1, 2, 3], [2, 3]]),
         "reuse_rate": r.choice([0, 0, 0.3]),
         "toggle_rate": r.choice([0, 0, 0.15]),
@@ -287,6 +296,11 @@ def compare(call, rec, lifetime_faulty, world_faulty):
     fns = "+".join(sorted(set(h["fn"] for h in call["helpers"])))
     if "error" in ref and "error" in acc:
         return out
+    if "error" in acc and dtype == "float16" and acc["error"] == "NotImplementedError":
+        out.append(("C08.unsupported|float16|accelerated-path-raises-NotImplementedError",
+                    f"float16 column: USE_NUMBA=True raises NotImplementedError ({acc['msg'][:60]}), "
+                    f"the Python path returns {ref.get('frame')}"))
+        return out
     if "error" in acc:
         if lifetime_faulty:
             return out          # may fail loudly under an injected cache fault
@@ -311,6 +325,18 @@ def compare(call, rec, lifetime_faulty, world_faulty):
         a, b = rf[name], af[name]
         where = f"{fn}|{dtype}|drop_na={dn}"
         if a["dtype"] != b["dtype"]:
+            same_vals = len(a["values"]) == len(b["values"]) and all(
+                (x in ("NaN", "NaT", None) and y in ("NaN", "NaT", None)) or
+                (isinstance(x, (int, float)) and isinstance(y, (int, float)) and
+                 not isinstance(x, bool) and not isinstance(y, bool) and
+                 math.isclose(float(x), float(y), rel_tol=1e-4, abs_tol=1e-6))
+                for x, y in zip(a["values"], b["values"]))
+            if dtype in NARROW and same_vals:
+                out.append((f"C08.dtype-width|{dtype}",
+                            f"{fn}({dtype}) result type {a['dtype']} (Python) vs {b['dtype']} (Numba): "
+                            f"the accelerated path widens results of a {dtype} column; values "
+                            f"{a['values']} vs {b['values']}"))
+                continue
             out.append((f"C08.dtype|{where}", f"{fn}({dtype}) result dtype {a['dtype']} (Python) vs "
                         f"{b['dtype']} (Numba); values {a['values']} vs {b['values']}"))
             continue
@@ -502,7 +528,7 @@ def extra_coverage(total, prop):
     for a, b in pairs:
         kernels.add(a)
         kernels.add(b)
-    universe = len(set(KERNEL.values())) * len(DTYPES_QUICK)
+    universe = len(set(KERNEL.values())) * (len(DTYPES_QUICK) + len(DTYPES_NARROW_THOROUGH))
     return {
         "lifetimes": total.get("opcount", {}).get("lifetimes", 0),
         "ordered_first_use_pairs_covered": len(pairs),
